@@ -25,6 +25,7 @@ def run(prog, rep, tier='quick'):
         'class the coefficient arrays and the variance handed to arma2psd are the very objects stored in .ar/.ma/.rho, '
         'and T is the sampling attribute (constant rho/sampling, with C08); (guard) ma raises unless 0 < Q < M. '
         'NOT decided: invertibility, positivity of the variance/PSD, the least-squares characterisation (numerical).')
+    rep.rule('solver-input', 'the sequence handed to arcovar / arcovar_marple has exactly `lag` values and the order is P')
     rep.rule('counts', 'symbolic length of the returned coefficient vectors equals the requested order')
     rep.rule('exposure', 'identity of the abstract values: arma2psd(A,B,rho,T) receives obj.ar / obj.ma / obj.rho / obj.sampling')
     rep.rule('guard', 'ma(X,Q,M) has a normal path iff 0 < Q < M (constant contexts on both sides of each bound)')
@@ -32,12 +33,29 @@ def run(prog, rep, tier='quick'):
     n_counts = 0
     for cplx in (False, True):
         for P, Q in ((1, 1), (3, 2), (4, 4), (5, 2), (7, 3)):
-            v, itp = C.run_function(prog, 'arma', 'arma_estimate',
-                                    [C.data(cplx), Const(P), Const(Q), C.symint('lag', 8, 'lag')], {})
+            itp = C.new_interp(prog)
+            itp.watch['covar.arcovar'] = []
+            itp.watch['covar.arcovar_marple'] = []
+            lagv = C.symint('lag', 8, 'lag')
+            v, itp = C.run_function(prog, 'arma', 'arma_estimate', [C.data(cplx), Const(P), Const(Q), lagv], {}, itp=itp)
             label = 'P=%d,Q=%d,%s' % (P, Q, 'complex' if cplx else 'real')
             where = loc(f.mod, f.node)
             if blocked(rep, 'counts', f.qname, label, itp):
                 continue
+            # the modified Yule-Walker equations use exactly `lag` correlation values on both solver branches
+            calls = itp.watch['covar.arcovar'] + itp.watch['covar.arcovar_marple']
+            if len(calls) != 1:
+                rep.undecided('solver-input', f.qname, label, 'expected one covariance-solver call, saw %d' % len(calls), where)
+            else:
+                xin = calls[0]['params'].get('x')
+                ln = length_of(xin) if xin is not None else None
+                o = calls[0]['params'].get('order')
+                oko = isinstance(o, Const) and o.v == P
+                if ln is not None and ln == lagv.a and oko:
+                    rep.proved('solver-input', f.qname, label, 'solver receives the `lag` correlation values, order P', where)
+                else:
+                    rep.violation('solver-input', f.qname, label, 'the covariance solver receives %s values (order %s): the AR part is '
+                                  'not the least-squares solution over lags Q+1..lag' % (ln, getattr(o, 'v', o)), where)
             if not isinstance(v, Tup) or len(v.items) != 3:
                 rep.undecided('counts', f.qname, label, 'no 3-tuple returned: %r' % (v,), where)
                 continue
